@@ -509,7 +509,12 @@ class Parser:
 
     def parse_integer_literal(self, stream: TokenStream) -> FilterExpression:
         # Convert to float first to handle scientific notation.
-        return IntegerLiteral(value=int(float(stream.current.value)))
+        try:
+            return IntegerLiteral(value=int(float(stream.current.value)))
+        except OverflowError as err:
+            raise JSONPathSyntaxError(
+                "integer literal out of range", token=stream.current
+            ) from err
 
     def parse_float_literal(self, stream: TokenStream) -> FilterExpression:
         return FloatLiteral(value=float(stream.current.value))
